@@ -146,7 +146,7 @@ func init() {
 				anyT := types.Universe.Lookup("any").Type()
 				for i, v := range verbs {
 					if v == 'w' {
-						ea := vc.elemAddr(sx("s-base", a[1]), simplifyAdd(sx("s-off", a[1]), IntLit(int64(i))))
+						ea := vc.elemAddr(vc.sptr(a[1]), IntLit(int64(i)))
 						wraps = append(wraps, vc.loadT(st, ea, anyT))
 					}
 				}
@@ -175,7 +175,7 @@ func init() {
 			base := vc.alloc(st, fr.prefix+"split")
 			n := sx("splitCount", a[0], a[1])
 			r := vc.sc.Fresh(fr.prefix+"splitres", "Slice")
-			vc.sc.Def(And(Eq(r, sx("mk-slice", base, "0", n, n)), sx(">=", n, "1")))
+			vc.sc.Def(And(Eq(r, vc.mkSlice(base, n, n)), sx(">=", n, "1")))
 			vc.needElemAxioms()
 			key := vc.memKey(types.Typ[types.String])
 			old := vc.getMem(st, key, "(Array Ref String)")
@@ -216,8 +216,30 @@ func init() {
 			fr.vc.Assumed["byte slices are compared through their abstract content bstr (not mutated in place)"] = true
 			return []Term{Eq(sx("bstr", a[0]), sx("bstr", a[1]))}, true
 		},
+		"encoding/base64.Encoding.DecodeString": func(fr *Frame, st *State, call ssa.CallInstruction, fn *ssa.Function, a []Term) ([]Term, bool) {
+			vc := fr.vc
+			vc.Assumed["base64 decoding is a function of its input (b64urlDecode uninterpreted)"] = true
+			vc.sc.DeclFun("b64urlDecode", []string{"String"}, "String")
+			content := sx("b64urlDecode", a[1])
+			base := vc.alloc(st, fr.prefix+"b64")
+			r := vc.sc.Fresh(fr.prefix+"decoded", "Slice")
+			vc.sc.Def(And(Eq(r, vc.mkSlice(base, sx("str.len", content), sx("str.len", content))), Eq(sx("bstr", r), content)))
+			e := vc.sc.Fresh(fr.prefix+"b64err", "Val")
+			vc.sc.Assume(st.reach, Or(Eq(e, "nilval"), sx("vnn", e)))
+			return []Term{r, e}, true
+		},
 		"encoding/json.Unmarshal": func(fr *Frame, st *State, call ssa.CallInstruction, fn *ssa.Function, a []Term) ([]Term, bool) {
-			return fr.decodeInto(st, call, 1, a, "encoding/json.Unmarshal"), true
+			return fr.decodeIntoJSON(st, call, 1, a, "encoding/json.Unmarshal", a[0]), true
+		},
+		"bytes.TrimSpace": func(fr *Frame, st *State, call ssa.CallInstruction, fn *ssa.Function, a []Term) ([]Term, bool) {
+			vc := fr.vc
+			vc.sc.DeclFun("trimSpace", []string{"String"}, "String")
+			content := sx("trimSpace", sx("bstr", a[0]))
+			r := vc.sc.Fresh(fr.prefix+"trimmed", "Slice")
+			// a sub-slice of the argument
+			vc.sc.Def(And(Eq(sx("bstr", r), content), Eq(sx("s-len", r), sx("str.len", content)), sx("<=", sx("s-len", r), sx("s-cap", r)),
+				Eq(sx("root", sx("s-ptr", r)), sx("root", vc.sptr(a[0])))))
+			return []Term{r}, true
 		},
 		"encoding/json.Decoder.Decode": func(fr *Frame, st *State, call ssa.CallInstruction, fn *ssa.Function, a []Term) ([]Term, bool) {
 			return fr.decodeInto(st, call, 1, a, "encoding/json.Decoder.Decode"), true
@@ -304,12 +326,75 @@ func (fr *Frame) decodeInto(st *State, call ssa.CallInstruction, argIdx int, a [
 		}
 	}
 	if !done {
-		vc.havocOS(st, a[argIdx])
+		vc.havocOS(st, a[argIdx], nil)
 		vc.Abstracted["decode into value of statically unknown type (abstract state havoced)"] = true
 	}
 	r := vc.sc.Fresh(fr.prefix+"decerr", "Val")
 	vc.sc.Assume(st.reach, Or(Eq(r, "nilval"), sx("vnn", r)))
 	return []Term{r}
+}
+
+// decodeIntoJSON: encoding/json additionally guarantees that a successful decode of a document
+// other than the literal null leaves a pointer (or generic) target non-nil.
+func (fr *Frame) decodeIntoJSON(st *State, call ssa.CallInstruction, argIdx int, a []Term, name string, data Term) []Term {
+	vc := fr.vc
+	res := fr.decodeInto(st, call, argIdx, a, name)
+	var ptrTerm Term
+	var ptrT types.Type
+	argv := call.Common().Args[argIdx]
+	if mi, ok := argv.(*ssa.MakeInterface); ok {
+		ptrTerm, ptrT = fr.val(mi.X), mi.X.Type()
+	} else if bi, ok := vc.boxes[a[argIdx]]; ok {
+		ptrTerm, ptrT = bi.inner, bi.t
+	}
+	if et, ok := typesPointerElem(ptrT); ok {
+		vc.sc.DeclFun("trimSpace", []string{"String"}, "String")
+		notNull := Not(Eq(sx("trimSpace", sx("bstr", data)), StrLit("null")))
+		var valid Term
+		switch {
+		case isTypeParam(et):
+			v := vc.loadT(st, ptrTerm, et)
+			valid = And(Not(Eq(v, "nilval")), sx("vnn", v))
+		case vc.sortOf(et) == "Ref":
+			if _, isPtr := types.Unalias(et).Underlying().(*types.Pointer); isPtr {
+				valid = Not(Eq(vc.loadT(st, ptrTerm, et), "nilref"))
+			}
+		}
+		if valid == "" && vc.sortOf(et) == "Val" {
+			valid = "true"
+		}
+		if valid != "" {
+			vc.Assumed["encoding/json.Unmarshal: a successful decode of a document other than the literal null leaves a pointer target non-nil"] = true
+			vc.sc.Assume(st.reach, Implies(And(Eq(res[0], "nilval"), notNull), valid))
+		}
+	}
+	if ptrT == nil {
+		// target boxed in an interface of unknown dynamic type: state the guarantee abstractly
+		vc.sc.DeclFun("trimSpace", []string{"String"}, "String")
+		notNull := Not(Eq(sx("trimSpace", sx("bstr", data)), StrLit("null")))
+		vc.Assumed["encoding/json.Unmarshal: a successful decode of a document other than the literal null leaves a pointer target non-nil"] = true
+		vc.sc.Assume(st.reach, Implies(And(Eq(res[0], "nilval"), notNull), vc.tgtValid(st, a[argIdx])))
+	}
+	return res
+}
+
+// tgtValid: "the decode target boxed in v holds a non-nil value" — the memory cell when the box
+// is statically known, an abstract predicate over v's target facet otherwise.
+func (vc *VC) tgtValid(st *State, v Term) Term {
+	if bi, ok := vc.boxes[v]; ok {
+		if et, ok := typesPointerElem(bi.t); ok {
+			switch {
+			case isTypeParam(et):
+				x := vc.loadT(st, bi.inner, et)
+				return And(Not(Eq(x, "nilval")), sx("vnn", x))
+			case vc.sortOf(et) == "Ref":
+				return Not(Eq(vc.loadT(st, bi.inner, et), "nilref"))
+			}
+			return "true"
+		}
+	}
+	vc.sc.DeclFun("tgtValid", []string{"Val", "Int"}, "Bool")
+	return sx("tgtValid", v, vc.osOfFacet(st, "$target", v))
 }
 
 // finalizeErrors emits the error-chain facts for plain errors and fmt.Errorf wraps, instantiated
